@@ -13,6 +13,15 @@ pub uninterp spec fn is_keyword(t: Seq<char>) -> bool;          // KEYWORDS.cont
 #[verifier::external_body] pub fn keywords_contains(s: &VStr) -> (r: bool) ensures r == is_keyword(str_view(s)) { unimplemented!() }
 #[verifier::external_body] pub fn node_str(n: &Node) -> (r: VStr) ensures str_view(&r) == node_text(n) { unimplemented!() }
 #[verifier::external_body] pub fn vpanic() requires false { unimplemented!() }
+// ---- the scope the identifier is registered in (ghost: the entry the current scope holds for the name), and the lexical lookup
+pub struct Scope { pub entry: Ghost<Option<Ident>> }
+#[verifier::external_body] pub fn add_dependency(sc: &mut Scope, i: &Ident) ensures final(sc).entry@ == Some(*i) { unimplemented!() }        // AssocFileData::add_dependency (unit c10_scope_add)
+pub uninterp spec fn lookup(sc: &Scope, name: Seq<char>) -> Option<Ident>;                   // get_dependency_flags_from_name(..).0 (unit c07_lexical_lookup)
+#[verifier::external_body] pub fn get_dependency_ident(sc: &Scope, name: &VStr) -> (r: Option<Ident>) ensures r == lookup(sc, str_view(name)) { unimplemented!() }
+pub uninterp spec fn strip_cb(t: TypeLayout) -> TypeLayout;                                  // TypeLayout::get_type_recursively (obligation C12.type.get_type_recursively)
+#[verifier::external_body] pub fn get_type_recursively_owned(t: &TypeLayout) -> (r: TypeLayout) ensures r == strip_cb(*t) { unimplemented!() }
+pub fn opt_ctx_i(o: Option<Ident>) -> (r: Result<Ident, VErr>) ensures o is Some <==> r is Ok, r is Ok ==> Some(r->Ok_0) == o { match o { Some(x) => Ok(x), None => Err(VErr) } }
+#[verifier::external_body] pub fn ty_of(i: &Ident) -> (r: &TypeLayout) requires i.ty is Some ensures *r == i.ty->Some_0 { unimplemented!() }
 """
 
 
@@ -28,7 +37,51 @@ def build(repo):
         Rule("R1", "let name = name . to_owned ( ) ;", "", why="&str -> String: the same text"),
     ], log, "Parser::ident")
     check_closed(b, "Parser::ident")
-    gen = header(log, f"{FILE}: Parser::ident") + prelude("parser.rs") + SPEC + f"""
+    parts = {}
+    LR = [
+        Rule("R3", "bail ! $a", "return Err ( VErr )", why="bail! -> return Err"),
+        Rule("R1", "Cow < 'static , TypeLayout >", "TypeLayout", why="Cow -> the value"),
+        Rule("R1", "Cow :: Owned ( $$e )", "$$e", why="Cow::Owned -> the value"),
+        Rule("R10", "user_data . add_dependency ( self ) ;", "add_dependency ( user_data , self ) ;", why="registration in the current scope: explicit state (R10)"),
+        Rule("R6", "let ( ident , _ ) = user_data . get_dependency_flags_from_name ( & self . name ) . with_context ( $$c ) ? ;", "let ident = opt_ctx_i ( get_dependency_ident ( user_data , & self . name ) ) ? ;", why="lexical lookup abstract (unit c07_lexical_lookup); None -> Err"),
+        Rule("R8", "ident . ty ( ) . expect ( $m ) . get_type_recursively ( )", "get_type_recursively_owned ( ty_of ( & ident ) )", why="expect on the found identifier's type: every registered identifier is typed (R8)"),
+        Rule("R1", "let new_ty = new_ty . clone ( ) ;", "", why="clone of an owned value"),
+        Rule("R1", "new_ty . clone ( )", "new_ty", why="clone of an owned value"),
+        Rule("R1", "if let Some ( ref ty ) = self . ty {", "if let Some ( _ ) = & self . ty {", why="ref binding only used by the error text"),
+    ]
+    for name in ("set_type_no_link", "link_force_no_inherit", "link_from_pointed_type_with_lookup"):
+        ff = src.fn(FILE, name, "impl Ident")
+        bb = translate(ff["body"], LR, log, f"Ident::{name}")
+        check_closed(bb, f"Ident::{name}")
+        parts[name] = render(bb, 2)
+    gen = header(log, f"{FILE}: Parser::ident; Ident::set_type_no_link, link_force_no_inherit, link_from_pointed_type_with_lookup") + prelude("parser.rs") + SPEC + f"""
+impl Ident {{
+    //@ OBL C10.ident.set_type_no_link
+    pub fn set_type_no_link(&mut self, ty: TypeLayout)
+        ensures final(self).ty == Some(ty), final(self).name == old(self).name, final(self).read_only == old(self).read_only,
+    {{
+{parts['set_type_no_link']}
+    }}
+    //@ OBL C10.ident.link_force_no_inherit
+    // gives the identifier its type and registers it -- typed, name and const flag as they are -- in the current scope
+    pub fn link_force_no_inherit(&mut self, user_data: &mut Scope, ty: TypeLayout) -> (r: Result<(), VErr>)
+        ensures r is Ok, final(self).ty == Some(ty), final(self).name == old(self).name, final(self).read_only == old(self).read_only, final(user_data).entry@ == Some(*final(self)),
+    {{
+{parts['link_force_no_inherit']}
+    }}
+    //@ OBL C10.ident.link_from_lookup
+    // an untyped mention of a name takes the type (behind any captured-variable wrapper) of the declaration the lexical lookup finds; nothing is registered
+    pub fn link_from_pointed_type_with_lookup(&mut self, user_data: &Scope) -> (r: Result<(), VErr>)
+        requires lookup(user_data, str_view(&old(self).name)) is Some ==> lookup(user_data, str_view(&old(self).name))->Some_0.ty is Some,      // registered identifiers are typed (C10.ident.link_force_no_inherit)
+        ensures r is Ok <==> old(self).ty is None && lookup(user_data, str_view(&old(self).name)) is Some,
+                r is Ok ==> final(self).ty == Some(strip_cb(lookup(user_data, str_view(&old(self).name))->Some_0.ty->Some_0)),
+                final(self).name == old(self).name, final(self).read_only == old(self).read_only,
+    {{
+{parts['link_from_pointed_type_with_lookup']}
+    }}
+}}
+"""
+    gen = gen + f"""
 //@ OBL C10.ident.parse
 pub fn ident(input: Node) -> (r: Result<Ident, VErr>)
     requires has_rule(&input, "ident")
@@ -40,7 +93,10 @@ pub fn ident(input: Node) -> (r: Result<Ident, VErr>)
 }} // verus!
 fn main() {{}}
 """
-    return gen, [Obl("C10.ident.parse", ["C10", "C16", "C03"], fn="Parser::ident", desc="Parser::ident: the written text, no type yet, NOT const; a reserved word is a diagnostic; requires an `ident` node (else the debug assertion panics)")], log
+    extra = [Obl("C10.ident.set_type_no_link", ["C10"], fn="Ident::set_type_no_link", desc="typing an identifier keeps its name and const flag"),
+             Obl("C10.ident.link_force_no_inherit", ["C10", "C02"], fn="Ident::link_force_no_inherit", desc="link_force_no_inherit: the identifier gets the type and is registered -- typed, name and const flag as they are -- in the current scope"),
+             Obl("C10.ident.link_from_lookup", ["C10", "C02"], fn="Ident::link_from_pointed_type_with_lookup", desc="an untyped mention takes the (unwrapped) type of the declaration the lexical lookup finds; fails when typed already or undeclared")]
+    return gen, extra + [Obl("C10.ident.parse", ["C10", "C16", "C03"], fn="Parser::ident", desc="Parser::ident: the written text, no type yet, NOT const; a reserved word is a diagnostic; requires an `ident` node (else the debug assertion panics)")], log
 
 
 UNITS = [VUnit("c10_ident_parse", ["C10", "C16", "C03"], "the identifier the parser hands out for a written name", build)]
